@@ -308,7 +308,12 @@ func (c *FnCtx) selectPath(st *State, base Term, idx []int, pos token.Pos) Term 
 			c.readFacts(st, cur)
 		} else {
 			if cur.Sort.Kind != KStruct {
-				panic(unsup("field %s of opaque struct %v", f.Name(), cur.T))
+				// field of an opaque dependency struct value: uninterpreted function of the value
+				fso := c.e.d.sortOf(f.Type())
+				fn := "field." + typeShortName(n) + "." + f.Name()
+				c.e.d.declFun(fn, "V", fso.SMT())
+				cur = Term{S: sApp(fn, cur.S), Sort: fso, T: f.Type()}
+				continue
 			}
 			cur = Term{S: sApp(cur.Sort.sel(f.Name()), cur.S), Sort: cur.Sort.Fields[i].Sort, T: f.Type()}
 		}
@@ -322,7 +327,11 @@ func (c *FnCtx) derefValue(st *State, p Term, pos token.Pos) Term {
 		c.nilCheck(st, p, pos, "*")
 		so := c.e.d.sortOf(n)
 		if so.Kind != KStruct {
-			panic(unsup("deref of opaque struct pointer %v", p.T))
+			// pointer to an opaque (dependency) struct: the value is an uninterpreted function of the pointer
+			fn := "deref." + typeShortName(n)
+			c.e.d.declFun(fn, "V", "V")
+			c.e.trusted["values of opaque dependency structs read through pointers are uninterpreted (deref."+typeShortName(n)+")"] = true
+			return Term{S: sApp(fn, p.S), Sort: sV, T: n}
 		}
 		var parts []string
 		for i := 0; i < stt.NumFields(); i++ {
@@ -350,7 +359,7 @@ func (c *FnCtx) addressOf(st *State, x ast.Expr) Term {
 		if n == nil {
 			panic(unsup("&composite of %v", t))
 		}
-		if !c.e.d.inModule(n.Obj().Pkg()) {
+		if !c.e.d.modelled(n) {
 			r := c.newRef(st, "ext_"+n.Obj().Name())
 			return Term{S: r, Sort: sV, T: types.NewPointer(t)}
 		}
@@ -363,6 +372,27 @@ func (c *FnCtx) addressOf(st *State, x ast.Expr) Term {
 		return ref
 	case *ast.ParenExpr:
 		return c.addressOf(st, y.X)
+	case *ast.SelectorExpr:
+		// &x.f : an opaque pointer determined by the object and the field; accesses through it are not modelled
+		if sel, ok := c.info.Selections[y]; ok && sel.Kind() == types.FieldVal {
+			base := c.evalExpr(st, y.X)
+			if base.Sort.Kind == KV {
+				fn := "fieldaddr." + sanitize(y.Sel.Name)
+				c.e.d.declFun(fn, "V", "V")
+				t := Term{S: sApp(fn, base.S), Sort: sV, T: types.NewPointer(c.typeOf(y))}
+				st.assume(sNot(sEq(t.S, "nilV")))
+				c.e.trusted["address of field "+y.Sel.Name+" taken in "+shortFn(c.fi.Key)+": accesses through that pointer are not modelled"] = true
+				return t
+			}
+		}
+	case *ast.Ident:
+		// &local : opaque pointer; later accesses through it are not modelled
+		if v, ok := c.info.ObjectOf(y).(*types.Var); ok {
+			n := c.e.d.freshConst("addr_"+v.Name(), sV)
+			st.assume(sNot(sEq(n, "nilV")))
+			c.e.trusted["address of local "+v.Name()+" taken in "+shortFn(c.fi.Key)+": accesses through that pointer are not modelled"] = true
+			return Term{S: n, Sort: sV, T: types.NewPointer(v.Type())}
+		}
 	}
 	panic(unsup("address-of %T at %s", x, c.pos(x.Pos())))
 }
